@@ -21,7 +21,7 @@ PROPS['C13'] = dict(
     rule='cases = (M, 2^24-phase chunk) for the full sweeps, (M) for boundary/round-trip sweeps, (2^24 chunk) for the '
          'double<->torus identity; evaluations = phases evaluated; non-trivial = phase within 2 units of a rounding boundary '
          '(k+1/2)/M, boundary-alphabet phases, mu not in {0,1}, x != 0',
-    bounds={'quick': 'all 2^32 phases for M in {2048,8,3,1000}; every M in [2,2^15] and 2^16..2^22 on the boundary alphabet; every mu of every M in [2,2^15] and 2^16..2^30; a quarter (residue VERIF_SEED mod 4 of the chunk index) of the 2^32 conversion identity',
+    bounds={'quick': 'all 2^32 phases for M in {2048,8,3,1000}; every M in [2,2^15] and 2^16..2^22 on the boundary alphabet; every mu of every M in [2,2^15] and 2^16..2^30; a quarter (residue VERIF_SEED mod 4 of the chunk index) of the 2^32 conversion identity; the boundary alphabet of M in [2,2048] + powers of two under the three non-default floating-point rounding modes; dtot32(t32tod(x) +- {1,3}*2^e) for e in 0..50 against the mantissa-exact value',
             'thorough': 'all 2^32 phases for 13 M incl. 2^30; boundary alphabet for every M in [2,2^15] and all powers of two to 2^30; all mu; all 2^32 torus values for the conversion identity'},
     assumptions=['the functions are pure (no state): debug/optim and the five back-ends share one translation unit, checked on optim and debug of spqlios-fma',
                  'Msize is an int32_t: 2^31 is not a value of the parameter type (interval width 0 -> division by zero), largest power of two is 2^30'],
@@ -56,7 +56,7 @@ PROPS['C11'] = dict(
     rule='cases = (N, a) for the three monomial routines on 7 contents; (N) group law X^a X^b; (N, i) basis rows: all pairs (X^i, c X^j) '
          'through Naive/Karatsuba/AddMulR/SubMulR; (N, content_a, content_b) full vectors; (N, c1, c2) coefficient-wise ops x 9 scalars. '
          'Non-trivial = every case (all operands non-zero); oracle = explicit-index / wrapping 64-bit exact product',
-    bounds={'quick': 'N in {1..2048}: every a in [0,2N); all basis pairs for N<=128 (optim) / N<=32 (debug), wrap-boundary j set above; 36 full-vector pairs; guard pages after (optim) / before (debug)',
+    bounds={'quick': 'N in {1..2048}: every a in [0,2N); all basis pairs for N<=128 (optim) / N<=32 (debug), wrap-boundary j set above; 36 full-vector pairs; aliased calls (AddMulZ/SubMulZ r=p1, r=p2, all equal; AddTo(r,r); AddMulZTo(r,p,r); Karatsuba family with result = torus operand) x 6 contents x 9 scalars; guard pages after (optim) / before (debug)',
             'thorough': 'all basis pairs for N<=512 (optim) / N<=256 (debug); the rest as quick'},
     assumptions=['the routines are bilinear over Z/2^32 (ring operations only, no data-dependent control flow): agreement on all basis pairs is agreement on all inputs; extreme and seeded full vectors are added to notice a change that breaks that premise',
                  'polynomial code is shared by the five back-ends; run on one'],
@@ -104,7 +104,7 @@ PROPS['C08'] = dict(
          'through lweKeySwitch; boundary alphabet (+-64 around every digit-carry boundary, 0, 2^31, 2^32-1) for 10 layouts x {noiseless, noisy key}; '
          '(n_in, n_out, layout, key kind, content) dimension pairs. Oracle: exact equality phase_out-phase_in = s(a-round_t(a)) - sum of the errors of the rows used '
          '(errors known from the secret keys; either neighbour accepted on an exact rounding tie). every case non-trivial (key bit 1 or noisy rows)',
-    bounds={'quick': 'default layout (8,2), n_out=8: residue class a = VERIF_SEED (mod 64) of all 2^32 values for noiseless and noisy keys; boundary alphabet for 10 layouts; 36 dimension pairs x 12 contents under guard pages / ASan',
+    bounds={'quick': 'default layout (8,2), n_out=8: residue class a = VERIF_SEED (mod 64) of all 2^32 values for noiseless and noisy keys; boundary alphabet for 10 layouts; 36 dimension pairs x 12 contents under guard pages / ASan; key-switching keys embedded in bootstrapping keys (k in 1..3, 7 cells): bk->ks and the copy in the FFT key exact and bit-identical, unchanged after bk is re-keyed / deleted; every library-generated row within 10 sigma',
             'thorough': 'all 2^32 values of a for (8,2) noiseless+noisy and (31,1),(15,2),(16,1),(3,10),(1,1) noiseless, residue class mod 16 for the others; 49 dimension pairs'},
     assumptions=['key-switching code is in the core objects shared by all back-ends', 'rounding ties (a exactly half-way between two multiples of 2^(32-t*basebit)) may go either way'],
     jobs=_c08,
@@ -116,7 +116,7 @@ PROPS['C19'] = dict(
     level='exploration',
     rule='cases = lambda in [-5,300] + {INT32_MIN, INT32_MAX}, each in a forked child, per library variant, plus all 64 ordered triples over {1,80,81,128} requested in one process; oracle: SIGABRT outside [1,128]; documented 80-bit set '
          'for 1..80 and documented 128-bit set (README table) for 81..128 field by field; derived fields recomputed; structural constraints; formula noise <= bound and >= 12 sigma margin. every case is non-trivial',
-    bounds={'quick': 'all 308 lambda x 5 back-ends (optim) + debug', 'thorough': 'all 308 lambda x 5 back-ends x {optim, debug}'},
+    bounds={'quick': 'all 308 lambda x 5 back-ends (optim) + debug; every sequence of <= 4 operations over {request 80/128 here, request 80/128 on a worker thread that exits, delete oldest, delete newest}, every live set re-checked after every operation', 'thorough': 'all 308 lambda x 5 back-ends x {optim, debug}'},
     assumptions=['documented values are those of README.md (128-bit: n=630, 2^-15, N=1024, 2^-25) and of the 2016 historic set for 80-bit', 'noise formulas: average-case CGGI (Bg^2/12 digits), bounds 0.0037/0.0047 from the property text'],
     min_outcomes=3,
     jobs=lambda tier, seed: sum([J('c19.cpp', 'optim', be, n=2) for be in BE], []) + (sum([J('c19.cpp', 'debug', be, n=2) for be in BE], []) if tier == 'thorough' else J('c19.cpp', 'debug', n=2)),
@@ -130,7 +130,7 @@ PROPS['C20'] = dict(
     rule='cases = (API function) x 10 libraries [defined-with-C-linkage must agree], (header, language) compiled alone, (structure|field) sizeof/offsetof C vs C++, '
          '(language, build, back-end) behavioural dump, spqlios assembly offsets. The API, the header closure and the structure list are computed from the working tree at check time. '
          'non-trivial = API function defined somewhere, every header/field/dump case',
-    bounds={'quick': 'complete: 5 back-ends x {optim, debug}, every header of the include closure of tfhe.h, every public structure and field', 'thorough': 'same (the space is small and fully enumerated)'},
+    bounds={'quick': 'complete: 5 back-ends x {optim, debug}, every header of the include closure of tfhe.h, every public structure and field; the dump program uses Lagrange objects from C (array of 3, every element a destination; caller-provided storage between guard words; in-place Mul/AddMul)', 'thorough': 'same (the space is small and fully enumerated)'},
     assumptions=['public API = functions declared EXPORT in the include closure of tfhe.h', 'functions declared but defined in no variant are consistent (reported as information)'],
     min_outcomes=3,
     jobs=lambda tier, seed: [dict(harness='c20.py', variant='optim', backend='all', needs_variants=['debug'])],
@@ -153,7 +153,7 @@ PROPS['C10'] = dict(
     rule='cases = (i) basis rows: (B X^i)*(c X^j) for the enumerated j and (B,c) combos through torusPolynomialMultFFT; (B, int pattern, torus pattern, seed) through Mult/AddMulR/SubMulR; '
          '(torus pattern pair) round trip, AddTo, Clear, Set/AddTorusConstant, Mul, AddMul/SubMul accumulation of 2..8 products. non-trivial = both operands non-zero (all cases). '
          'oracle = exact negacyclic product mod 2^32; tolerance 2 units for B<=2^9, 2B/2^9 above, 1 unit round trip, 2 units per accumulated term',
-    bounds={'quick': 'N=1024; every i, j in {j = VERIF_SEED mod 16} + wrap boundaries, 2 coefficient combos; 5 magnitudes x 6 x 5 patterns; 25 Lagrange cases; 5 back-ends x optim (+ debug for patterns)',
+    bounds={'quick': 'N=1024; every i, j in {j = VERIF_SEED mod 16} + wrap boundaries, 2 coefficient combos; 5 magnitudes x 6 x 5 patterns; 25 Lagrange cases incl. aliased calls (Mul(B,A,B), Mul(A,A,B), AddMul/SubMul(B,A,B), AddTo(A,A), MultFFT(b,a,b)); 7 thread-lifetime histories under the guard allocator (first FFT user exits while another thread lives); 5 back-ends x optim (+ debug for patterns)',
             'thorough': 'all 1024^2 basis pairs x 6 coefficient combos x 5 back-ends x {optim, debug}; 3 seeds for seeded patterns'},
     assumptions=['N=1024 is the only ring size the FFT processors implement (asserted by the library)'],
     jobs=_c10, max_report=60,
@@ -173,7 +173,7 @@ PROPS['C03'] = dict(
     rule='cases = (scheme, dimension, Msize, noise level index, key seed): all messages of [0,Msize) for Msize<=64 ({0,1,M/2,M-1} above) for LWE and TLWE-constant, '
          'a polynomial message carrying every message for TLWE/TGSW; trivial samples under several keys; 2000 fresh gate ciphertexts per default set. '
          'noise levels {0, 2^-30, 2^-25, <=2^-15, 1/(40M), 1/(20M)} (TGSW: up to 1/(20 Bg), its decryptable maximum). non-trivial = alpha>0 and message != 0. oracle: exact equality',
-    bounds={'quick': 'K=1 key seed per cell; spqlios-fma + fftw (optim) + nayuki-portable (debug)', 'thorough': 'K=4 seeds x 5 back-ends (optim) + K=1 x 5 back-ends (debug)'},
+    bounds={'quick': 'ring masks k in 1..4 (TLWE), 1..3 (TGSW, re-keyed objects, trivial samples); K=1 key seed per cell; spqlios-fma + fftw (optim) + nayuki-portable (debug)', 'thorough': 'K=4 seeds x 5 back-ends (optim) + K=1 x 5 back-ends (debug)'},
     assumptions=['10 sigma margin: a correct tree fails a case with probability < 1e-22; every case is deterministic given (VERIF_SEED, case key)',
                  'TGSW decryptable maximum is what tGswSymDecrypt amplifies: Msize*alpha*(Bg/Msize) <= 1/20', 'ring schemes at N=1024 (FFT back-ends implement no other size)'],
     jobs=_c03,
@@ -196,7 +196,7 @@ PROPS['C05'] = dict(
     rule='cases = (dimension tuple, real-valued parameter tuple, content pattern, object type, transport) for the 13 stand-alone types; (reals, content, type, transport) for cloud/secret key sets at N=1024; '
          'the two default parameter sets; every ordered pair (thorough: triple) of the 15 types written back-to-back into one stream. oracle: field-for-field equality (doubles bit-for-bit, arrays memcmp, '
          'key-row variances against the common maximum), stream position, export(import(bytes)) == bytes, FILE bytes == stream bytes. non-trivial = a real not representable in 8 decimals or a binary section',
-    bounds={'quick': '4 dimension tuples x 11 real tuples (1e-12..0.5 incl. 2^-15, 2^-25, 7.18e-9) x 6 contents x 13 types x 2 transports; key sets: 11 reals x seeded (+MIN, END-marker for 3); default sets; all 225 ordered pairs x 2 transports',
+    bounds={'quick': '64 x 16384 pairs of doubles (seeded mantissas, exponents 2^-40..2^-1, short decimals) through LweParams/TLweParams; A, B (= A with ONE field changed: 4 reals, 6 integers), A imported from one stream for 15 types x 2 transports; 4 dimension tuples x 11 real tuples (1e-12..0.5 incl. 2^-15, 2^-25, 7.18e-9) x 6 contents x 13 types x 2 transports; key sets: 11 reals x seeded (+MIN, END-marker for 3); default sets; all 225 ordered pairs x 2 transports',
             'thorough': '+ all ordered triples (at most one key set per triple); complete default 80/128-bit key sets: every gate bit-identical under the re-imported cloud key, re-imported secret key decrypts identically'},
     assumptions=['variance of key rows is stored once and comes back as the common maximum (allowed by the statement)', 'key sets need N=1024 because import recomputes the FFT image'],
     jobs=_c05, max_report=12,
@@ -231,7 +231,7 @@ PROPS['C17'] = dict(
     rule='cases = (parameter set, key seed, transport): both default sets and four small custom sets (n in {8,9}, k in {1,2}, N=1024). oracle: exact length formula from the parameters; key-switch '
          'section = three public integers; cloud bytes strict prefix of the secret export, remainder = exactly the two key sections; LWE key / every ring key polynomial / concatenated ring key '
          'searched at every offset in 8 encodings (>=16 bytes) + half-overlapping windows; import with generator snapshot equal, open/fopen/read/getrandom/rand unreachable; structure holds 3 pointers. every case non-trivial',
-    bounds={'quick': '6 parameter sets x 1 seed x 2 transports (80-bit default: FILE only)', 'thorough': '6 parameter sets x 3 seeds x 2 transports, spqlios-fma + fftw'},
+    bounds={'quick': '6 parameter sets x 1 seed x 2 transports (80-bit default: FILE only); linear attack modulo 2 on the exported key-switching rows (n+64 equations) and bootstrapping-key rows (kN+64 equations)', 'thorough': '6 parameter sets x 3 seeds x 2 transports, spqlios-fma + fftw'},
     assumptions=['encodings shorter than 16 bytes are not searched (chance matches); the vacuity guard requires the same search to find the keys in the secret export'],
     jobs=lambda tier, seed: J('c17.cpp', 'optim', 'spqlios-fma', n=6, ldflags='-ldl') + (J('c17.cpp', 'debug', 'fftw', n=6, ldflags='-ldl') if tier == 'thorough' else []),
 )
@@ -252,7 +252,7 @@ PROPS['C01'] = dict(
     level='exploration',
     rule='cases = (parameter set, key seed, gate, truth row, input kind per wire) on one library variant per job; kinds: F fresh, P+/P- fresh with the true phase moved to +-1/8 +- (1/32 - 2^-20), T trivial, B output of a bootstrapped gate. '
          'oracle: bootsSymDecrypt == truth table; harness-side exact rounded phase p of the internal combination in the right half circle; output error < 1/32. non-trivial = bootstrapping gate with at least one non-trivial input',
-    bounds={'quick': '14 gates x all rows x kinds {F,P+,P-}^arity x {80,128}-bit x 1 key seed on optim/spqlios-fma (+ {F,P+} on optim/fftw, + the rounded-phase-0 cases on debug/nayuki-portable); key-set histories (two key sets from one parameter object alive together, delete + re-generate, ciphertext arrays) x {80,128}-bit on optim/spqlios-avx', 'thorough': 'all 5 kinds^arity x 2 key seeds x 5 back-ends (optim); kinds {F,P+,P-} x 1 seed x 5 back-ends (debug); key-set histories on 5 back-ends (optim) + debug/nayuki-portable'},
+    bounds={'quick': '14 gates x all rows x kinds {F,P+,P-}^arity x {80,128}-bit x 1 key seed on optim/spqlios-fma (+ {F,P+} on optim/fftw, + the rounded-phase-0 cases on debug/nayuki-portable); key-set histories (two key sets from one parameter object alive together, delete + re-generate, ciphertext arrays) and call shapes (result object = each input in turn, inputs with variance field 0 / 1) x {80,128}-bit on optim/spqlios-avx', 'thorough': 'all 5 kinds^arity x 2 key seeds x 5 back-ends (optim); kinds {F,P+,P-} x 1 seed x 5 back-ends (debug); key-set histories on 5 back-ends (optim) + debug/nayuki-portable'},
     assumptions=['every case is deterministic given (VERIF_SEED, case key); a correct tree fails a case with probability < 1e-50 (margin >= 17 sigma at the adversarial limit)'],
     jobs=_c01,
 )
@@ -275,7 +275,7 @@ PROPS['C04'] = dict(
          'seeded/wrap-around masks of dimension n in {2,3,8,9,1100} with b solved so that p hits the target set; general test polynomials (constant, spikes, ramp, seeded) through blindRotateAndExtract[_FFT]; k in {1,2}, '
          '(l,Bgbit) in {(2,10),(3,7),(4,8),(2,16)}; variants woKS_FFT, FFT, woKS, coefficient-domain; real default keys. oracle: exact sign/coefficient within the analytic FFT+truncation budget (<< mu) with harness-built exact keys; '
          'sign + |error| < 3/64 with real keys. non-trivial = every case (p adjacent to a boundary or at least one CMux executed)',
-    bounds={'quick': 'targets p in {0,1,2,N-2..N+1,2N-2,2N-1,511,1536}; all 2N cells for trivial samples (mu 1/8,-1/8; boundary cells for the other four); all 2N mask values for n=1; n=1100 under guard pages and ASan; 64 boundary p per default key',
+    bounds={'quick': 'targets p in {0,1,2,N-2..N+1,2N-2,2N-1,511,1536}; all 2N cells for trivial samples (mu 1/8,-1/8; boundary cells for the other four); all 2N mask values for n=1; n=1100 under guard pages and ASan; 64 boundary p per default key; key lifetimes (FFT key used after bk was refilled with another key set / deleted, second key set alive) for k in {1,2}, also under guard pages and ASan',
             'thorough': 'every p in [0,2N) for n<=3, for the FFT test-polynomial sweep and for both default keys; 4 back-ends optim + debug'},
     assumptions=['exact-key budget: nz*(1+kN)*(2*max(1,Bg/2^10) + 2^(32-l*Bgbit)) units per blind rotation, + kN*2^(31-t*basebit) for the key switch (noiseless harness-built key-switching key)',
                  'an exact rounding tie in an input coefficient lets the neighbouring p be accepted'],
@@ -346,7 +346,7 @@ PROPS['C06'] = dict(
          'pthread_mutex_lock/unlock (blocking modelled), decomposition and Karatsuba entry, thread exit (thread_local destructors). oracles: every thread output byte-identical to its sequential reference, no deadlock, '
          'no two threads at FFTW planner calls without a common lock. histories: every sequence of <= depth operations over a 14-operation alphabet on a fresh thread, then a probe (3 gates): bytes == reference. '
          'non-trivial = schedule with at least one preemption / non-empty history',
-    bounds={'quick': '2 threads, <= 2 preemptions, 7 scenarios (FFT products, external products with shared key, gates with shared cloud key (n=1), gate vs key generation, Karatsuba products, thread churn with 31 and 63 short-lived threads between two live ones) x 5 back-ends; histories depth 2 (211 sequences)',
+    bounds={'quick': '2 threads, <= 2 preemptions, 7 scenarios (FFT products, external products with shared key, gates with shared cloud key (n=1), gate vs key generation, Karatsuba products, thread churn with 31 and 63 short-lived threads between two live ones) x 5 back-ends; histories depth 2 (211 sequences), probe = 4 gates with the 128-bit key + NAND, MUX and an FFT external product under a k=2 key, on an unperturbed heap',
             'thorough': '+ 3 threads (3 back-ends), tiny key n=2, histories depth 3'},
     assumptions=['preemption happens only at the interposed points (the code has no atomics; no memory-ordering effects below that granularity are modelled)',
                  'data races invisible to the scheduler are the business of the free-running TSan pass (supporting evidence, blind to the assembly kernels)'],
@@ -413,7 +413,7 @@ PROPS['C07'] = dict(
          'population moments judged on the merged sums (mean, stdev/sigma, kurtosis, tails, byte histograms, lag-1 correlation). (b) (parameter set, key seed): error of every key-switching row and every bootstrapping-key coefficient '
          'computed with the secret keys, stratified by digit/value/key bit/block/row/lane: stdev within 8 estimator sigma (+1.5 units) of the configured level, |e| <= 8 sigma, h=0 rows trivial, masks flat, keys binary and balanced, '
          're-keyed objects. (c) (seed, history pair): re-seeding reproduces the same bytes after any history; different seeds differ; no other entropy source reached. non-trivial = state / stratum with >= 200 errors / non-empty history',
-    bounds={'quick': 'states: 1/64 of all 2^31 states (3.3e7) for sigma in {2^-30,2^-25,2^-15}; objects: default-128, default-80 (1 seed) + 8 small sets x 2 seeds; seeding: 3 seeds x 11x11 history pairs',
+    bounds={'quick': 'states: 1/64 of all 2^31 states (3.3e7) for sigma in {2^-30,2^-25,2^-15}; objects: default-128, default-80 (1 seed) + 8 small sets x 2 seeds (per-stratum judgement of the key-switching rows; the key-switching key inside the FFT key = the generated rows); seeding: 3 seeds x 11x11 history pairs',
             'thorough': 'all 2^31-2 states x 7 sigma; default sets x 4 seeds, 24 small sets x 8 seeds; two back-ends'},
     assumptions=['distributions depend on libstdc++ normal_distribution / uniform_int_distribution (trusted base)', 'statistical acceptance regions are >= 8 estimator standard deviations wide, as the property prescribes'],
     jobs=_c07, post=_c07_post, max_report=10,
@@ -476,7 +476,7 @@ PROPS['C16'] = dict(
          'with 0/1/3 elements, the four deletions in one of the 24 orders - all 24 on the small default-layout cells -, collector finalize), run twice; (concurrent threads, FFT uses) thread create/use/exit histories x 5 back-ends. '
          'oracles by job: guard pages after / before every heap block on the optim build (inline asm and .s accesses), ASan+UBSan build, digests equal under two different fill patterns of fresh memory (xcmp), live heap blocks stationary. '
          'non-trivial = every cell (a full lifecycle) / thread history with FFT use',
-    bounds={'quick': 'n in {1,7,8,9,1025} x k in {1,2} with the default layouts, the (l,Bgbit) and (t,basebit) grids for n<=9,k=1, one k=2 n=1025 cell; key material <= 64 MB per cell; thread histories 1-3 threads x {0,1,3} uses x 5 back-ends',
+    bounds={'quick': 'n in {1,7,8,9,1025} x k in {1,2} with the default layouts, the (l,Bgbit) and (t,basebit) grids for n<=9,k=1, one k=2 n=1025 cell; key material <= 64 MB per cell; thread histories 1-3 threads x {0,1,3} uses x 5 back-ends; 10 ownership hand-off histories (Lagrange / TGSW-FFT / key-set objects made by a thread that exits, used and deleted by another) x 5 back-ends under guard pages + ASan',
             'thorough': 'whole matrix n in {1,3,7,8,9,500,630,1024,1025,1100} x k x 6 (l,Bgbit) x 5 (t,basebit) with key material <= 300 MB (excluded cells listed in the evidence); + asan-debug/fftw, guard pages on fftw and nayuki-avx, valgrind memcheck on the vg build for a reduced matrix (n in {1,7,9})'},
     assumptions=['valgrind memcheck cannot execute the -march=native build on this CPU (AVX-512); guard pages on the real optim build are the oracle for the assembly paths', 'guard pages: at most ~24000 live guarded blocks (vm.max_map_count); the rest is served unguarded and counted'],
     jobs=_c16, max_report=10,
